@@ -444,6 +444,12 @@ class Parser:
             )
             if condition:
                 return False
+            curarg = self.__curcommand.curarg
+            if curarg is not None and "extra_arg" in curarg:
+                # a tag still waits for its parameter
+                raise ParseError(
+                    "missing parameter for argument %s" % curarg["name"]
+                )
             self.__cstate = None
             if not self.__check_command_completion(testsemicolon=False):
                 return False
